@@ -83,10 +83,13 @@ def generate(seed, tier):
         # collected): it is still a collection and counts against the limits
         s["failing"] = kind in ("snapshot", "log") and r.random() < 0.2
         s["via"] = r.choice(("service", "direct"))
-        s["window"] = r.choice((None, None, None, "start", "end", "both"))
-        if s["window"]:
+        s["window"] = r.choice((None, None, None, "start", "end", "both", "arg-past", "arg-future"))
+        if s["window"] in ("start", "end", "both"):
             s["via"] = "direct"
             s["kind"] = "snapshot"
+        # the service publishes a new configuration in which this tracepoint is unchanged (another one is added): it
+        # stays installed, its count and its last fire carry on
+        s["republish_at"] = r.randrange(1, n) if s["via"] == "service" and n > 1 and r.random() < 0.35 else None
     else:
         s["threads"] = r.randrange(2, 7)
         # a collecting thread may stall while it holds the action (slow condition, loaded host): 0.2 - 3 s
@@ -129,6 +132,10 @@ def _args(s):
     if s["fire_period"] is not None:
         args["fire_period"] = s["fire_period"]
     watches, metrics = [], []
+    if s.get("window") == "arg-past":
+        args["window_end"] = "1"             # over since 1970, in any unit
+    elif s.get("window") == "arg-future":
+        args["window_start"] = str(10 ** 30)  # not yet, in any unit
     if s.get("failing"):
         args["log_msg"] = "hit {i} x={x"
         if s["kind"] == "log":
@@ -178,15 +185,17 @@ def _execute_seq(s, ch):
         w.start()
         k.settle()
         period_ns = RefLimiter(1, s["fire_period"] if s["fire_period"] is not None else 1000).period_ns
-        win = (0, 0)
+        win = {"arg-past": (0, 1), "arg-future": (10 ** 30, 0)}.get(s.get("window"), (0, 0))
         if s["via"] == "service":
-            w.service.set_config([w.service.make_tp("tp", p.basename, tp_line, args, watches, [
-                tpb.Metric(name=m, type=tpb.MetricType.COUNTER) for m in metrics])], "h1")
+            def the_tp():
+                return w.service.make_tp("tp", p.basename, tp_line, args, watches, [
+                    tpb.Metric(name=m, type=tpb.MetricType.COUNTER) for m in metrics])
+            w.service.set_config([the_tp()], "h1")
             w.deep.poll.poll()
             common.wait_until(k, lambda: len(w.handler._tp_config) > 0, 60)
         else:
             trig = build_trigger("tp", p.basename, tp_line, args, watches, [MetricDefinition(m, "COUNTER") for m in metrics])
-            if s.get("window"):
+            if s.get("window") in ("start", "end", "both"):
                 base = k.now_ns + 3 * 10**9
                 win = {"start": (base, 0), "end": (0, base + 4 * 10**9), "both": (base, base + 4 * 10**9)}[s["window"]]
                 from deep.api.tracepoint.trigger import LocationAction, Trigger, LineLocation, Location
@@ -225,6 +234,12 @@ def _execute_seq(s, ch):
 
         def tick(i):
             state["i"] = i
+            if s.get("republish_at") == i and s["via"] == "service":
+                k.fault("config_republished_with_tracepoint_unchanged")
+                w.service.set_config([the_tp(), w.service.make_tp("other", p.basename, 999, {}, [])], "h2")
+                w.deep.poll.poll()
+                common.wait_until(k, lambda: sum(len(t_.actions) for t_ in w.handler._tp_config) > len(
+                    [1 for _ in (1,)]) and any(t_.id.endswith("#999") for t_ in w.handler._tp_config), 60)
         g = p.load({"tick": tick})
         out = []
         t = shims.SimThread(target=lambda: g["tmain"](1, len(s["gaps"]), out), name=me_name)
@@ -313,7 +328,7 @@ def _execute_seq(s, ch):
     pat = info.get("pattern", [])
     key = None
     if any(g for _, g in pat) and any(not g for _, g in pat):
-        key = repr((s["fire_count"], s["fire_period"], s["kind"], s.get("window"), s.get("failing"), s["gaps"], pat))
+        key = repr((s["fire_count"], s["fire_period"], s["kind"], s.get("window"), s.get("failing"), s.get("republish_at"), s["gaps"], pat))
     return common.result(k, viol, key=key)
 
 
@@ -352,10 +367,15 @@ def _execute_race(s, ch):
         def can_trigger(ts):
             # the reference limiter is asked with the state the agent has recorded so far (it is advanced in
             # record_triggered below), so its answer does not depend on how the threads interleave
+            # judged only when the caller holds the action's lock: a look at the limits without it (a cheap early exit)
+            # may be overtaken by another thread's record between our reading of the reference and the agent's answer
+            locked = getattr(act.lock, "_owner", None) is k.me()
             want = lim0.allows(ts)
             r_ = orig_can(ts)
-            if want is not None and bool(r_) != want:
+            if locked and want is not None and bool(r_) != want:
                 decisions.append((ts, bool(r_), want, lim0.count, lim0.last))
+            if r_ and not locked and getattr(act.lock, "_owner", "n/a") != "n/a":
+                return r_
             if r_:
                 inside["n"] += 1
                 inside["max"] = max(inside["max"], inside["n"])
